@@ -236,18 +236,21 @@ def update (o : Entries) (k : Val) (f : Val → Option Val) : Entries :=
     | some y => o ++ [(k, y)]
     | none => o
 
+/-- one step of the loop of `obj_merge`: the entry `p` of the right operand is merged into `acc`;
+`rec` merges two nested objects -/
+def mergeStep (rec : Entries → Entries → Entries) (acc : Entries) (p : Val × Val) : Entries :=
+  match getIdx eq acc p.1 with
+  | some i =>
+    match acc[i]?, p.2 with
+    | some (k', .obj lo), .obj ro => acc.set i (k', .obj (rec lo ro))
+    | some (k', _), rv => acc.set i (k', rv)
+    | none, _ => acc
+  | none => insert acc p.1 p.2
+
 /-- `obj_merge` (fuel: nesting depth) -/
 def mergeF : Nat → Entries → Entries → Entries
   | 0, l, _ => l
-  | n + 1, l, r =>
-    r.foldl (fun acc p =>
-      match getIdx eq acc p.1 with
-      | some i =>
-        match acc[i]?, p.2 with
-        | some (k', .obj lo), .obj ro => acc.set i (k', .obj (mergeF n lo ro))
-        | some (k', _), rv => acc.set i (k', rv)
-        | none, _ => acc
-      | none => insert acc p.1 p.2) l
+  | n + 1, l, r => r.foldl (mergeStep (mergeF n)) l
 
 def merge (l r : Entries) : Entries := mergeF (Val.sizeEntries l + Val.sizeEntries r + 1) l r
 
@@ -400,5 +403,49 @@ def NoHugeInt (v : Val) : Bool := allNums Num.convFinite v
 
 /-- no negative zero in the value (guard of the `_partial` hash theorems, F-08) -/
 def NoNegZero (v : Val) : Bool := allNums Num.noNegZero v
+
+/-- the type invariant of `Num::Int(isize)`: the payload of a machine integer fits an `isize`
+(the model's `Int` is unbounded) -/
+def WfInts (v : Val) : Bool := allNums Num.wf v
+
+/-- the guard of mode `m` alone -/
+def Num.guard : Mode → Num → Bool
+  | .smallInts, n => Num.smallInt n
+  | .infFloats, n => Num.infFloat n
+
+/-- **the property's domain on a tree with the repair of F-08b**: NaN-free, the
+`BigVsFloatGuard` in mode `m`, machine integers are machine integers — and nothing else (no
+`NoHugeInt`) -/
+def InDomR (m : Mode) (v : Val) : Bool := allNums (fun n => Num.nanFree n && Num.guard m n && Num.wf n) v
+
+/-! ### the invariant of `IndexMap`: no two entries with equivalent keys
+
+`Val.obj` of the model is a raw association list.  A real object never holds two keys that are
+`==` (once hashing agrees with `==`, findings F-08 / F-08b): `insert` finds the first.  The
+theorems about `==`, hashing and look-up assume this invariant for every object inside the values
+(`WfKeys`); `Obj.insert`, `Obj.extend`, `Obj.ofList`, `Obj.update` and `Obj.merge` are proved to
+preserve it (Props/C08.lean, `wfKeys_*`). -/
+
+/-- the keys of the entries are pairwise non-equivalent under the order -/
+def distinctKeys : Entries → Bool
+  | [] => true
+  | p :: ps => ps.all (fun q => cmp p.1 q.1 != .eq) && distinctKeys ps
+
+mutual
+  /-- every object inside the value (at any depth, also inside keys) satisfies `p` -/
+  def allObjs (p : Entries → Bool) : Val → Bool
+    | .arr a => allObjsL p a
+    | .obj o => p o && allObjsE p o
+    | _ => true
+  def allObjsL (p : Entries → Bool) : List Val → Bool
+    | [] => true
+    | v :: vs => allObjs p v && allObjsL p vs
+  def allObjsE (p : Entries → Bool) : List (Val × Val) → Bool
+    | [] => true
+    | (k, v) :: es => allObjs p k && allObjs p v && allObjsE p es
+end
+
+/-- every object inside the value has pairwise non-equivalent keys -/
+def WfKeys (v : Val) : Bool := allObjs distinctKeys v
 
 end Jaq.C08
